@@ -80,6 +80,20 @@ class Path:
                     elif o == '>': lo = max(lo, d + 1)
                     elif o == '>=': lo = max(lo, d)
                     elif o == '==': lo = max(lo, d); hi = min(hi, d)
+        # disequalities trim an end point of the interval (x != d with x in [d, hi] gives [d+1, hi]); repeat until stable
+        changed = True
+        while changed and lo <= hi:
+            changed = False
+            for f, op in self.cons:
+                if op != '!=':
+                    continue
+                for g in (f, -f):
+                    if a.same_linear(g):
+                        d = a.k - g.k
+                        if lo == d:
+                            lo += 1; changed = True
+                        if hi == d and lo <= hi:
+                            hi -= 1; changed = True
         return lo, hi
     def feasible(self):
         for f, op in self.cons:
@@ -209,7 +223,9 @@ class Evaluator:
                 if callee.startswith('llvm.dbg') or callee.startswith('llvm.lifetime'):
                     continue
                 tgt = self.mod.func(callee)
-                if tgt is not None and not tgt.decl and (callee in self.inline or tgt.srcname in self.inline):
+                if tgt is not None and not tgt.decl and depth < 48:
+                    # any defined callee is evaluated in place (a helper extracted from the arithmetic is part of it); a callee that is
+                    # not straight-line arithmetic is reported by the instruction that is outside the fragment
                     args = [self._val(regs, o) for o in i.ops]
                     sub = []
                     self._run(tgt, dict(zip([a['id'] for a in tgt.args], args)), path, tgt.entry.id, None, sub, depth + 1)
